@@ -347,6 +347,20 @@ func (p *pluginProvider) LoadSchema(inputs map[string]any, _ map[string][]byte) 
 		return nil, fmt.Errorf("failed to shut down local plugin from '%s' (%w)", pluginSource, err)
 	}
 
+	// The SDK calculates the default values of an unserialized object schema on first use, without synchronisation.
+	// The schema is shared by all, possibly concurrent, runs of this step, so calculate them now.
+	for _, stepSchema := range s.Steps() {
+		scopes := []schema.Scope{stepSchema.Input()}
+		for _, output := range stepSchema.Outputs() {
+			scopes = append(scopes, output.Schema())
+		}
+		for _, scope := range scopes {
+			for _, object := range scope.Objects() {
+				object.GetDefaults()
+			}
+		}
+	}
+
 	return &runnableStep{
 		schemas:          *s,
 		logger:           p.logger,
